@@ -1,6 +1,7 @@
 """Property -> rules table."""
 
-from .rules import inplace, maps, exponent, decomp, threads, evo, tebd, record
+from .rules import inplace, maps, exponent, decomp, threads, evo, tebd, record, iso, optflow, registries
+import functools
 
 COMMON_ASSUMPTIONS = [
     "the repository's own source is what runs: no monkey-patching, setattr tricks or user code outside /repo",
@@ -9,7 +10,85 @@ COMMON_ASSUMPTIONS = [
     "autoray / cotengra / numpy / scipy / numba internals are trusted",
 ]
 
+P = functools.partial
+
+
+def _in_modules(*mods):
+    return lambda f: any(f.module.name.startswith(m) for m in mods)
+
+
+def _c09_family(f):
+    return f.module.name in ("quimb.tensor.tn1d.compress",) or (
+        f.module.name == "quimb.tensor.tn1d.core" and f.name.lstrip("_").startswith(
+            ("compress", "add_M", "apply", "normalize", "permute_arrays", "left_compress", "right_compress", "fill_empty",
+             "gate_with", "gate_nonlocal", "swap_", "canonic", "left_canon", "right_canon", "expand_bond", "rand", "trace",
+             "partial_trace", "partial_transpose", "dot", "flip", "align", "reindex", "retag", "view", "multiply", "negate",
+             "conj", "astype", "squeeze", "fuse")))
+
+
+def _c12_family(f):
+    n = f.name.lstrip("_")
+    return (f.module.name in ("quimb.tensor.tn2d.core", "quimb.tensor.tn3d.core", "quimb.tensor.tnag.compress") and n.startswith(
+        ("contract_", "compute_", "coarse_grain", "compress", "tensor_network_ag_compress", "canonize", "flatten", "expand_bond")
+    )) or (f.module.name == "quimb.tensor.tensor_core" and n.startswith(("contract_compressed", "contract_around", "compress_", "_contract_compressed", "_contract_around", "insert_compressor")))
+
+
 REGISTRY = {
+    "C09": {
+        "rules": [
+            registries.rule_compress_registry_1d,
+            P(optflow.rule_option_delivery, opts=("max_bond", "cutoff"), modules=("quimb.tensor.tn1d",), rule="cap-delivery[1d]", floor=40),
+            P(registries.rule_mode_total, specs=[
+                ("quimb.tensor.tn1d.core", "TensorNetwork1DFlat.compress", "form"),
+                ("quimb.tensor.tn1d.compress", "_src_get_local_noise_tensors", "noise_mode"),
+                ("quimb.tensor.tnag.core", "tensor_network_apply_op_vec", "which_A"),
+            ]),
+            P(inplace.rule_inplace_effect, family=_c09_family, rule="inplace-effect[1d]", floor=25, controls=0),
+        ],
+        "explanation": (
+            "static: decides the structural conditions of C09 — every registered 1D compression method accepts what the "
+            "dispatcher passes and reads each option it accepts; the bond cap and cutoff are delivered along every call "
+            "edge of quimb/tensor/tn1d whose callee accepts them (so no route silently drops the cap); mode dispatchers "
+            "reject unknown modes; MPS/MPO arithmetic and all compressors obey the non-mutation discipline. Does NOT decide "
+            "dense round-trips, error bounds or convergence of fit methods."
+        ),
+        "assumptions": COMMON_ASSUMPTIONS,
+    },
+    "C12": {
+        "rules": [
+            registries.rule_ag_compress_registry,
+            P(optflow.rule_option_delivery, opts=("max_bond", "cutoff"),
+              modules=("quimb.tensor.tn2d", "quimb.tensor.tn3d", "quimb.tensor.tnag.compress", "quimb.tensor.tensor_core"),
+              rule="cap-delivery[boundary]", floor=80),
+            P(registries.rule_mode_total, specs=[
+                ("quimb.tensor.tensor_core", "TensorNetwork._compute_bond_env", "method"),
+                ("quimb.tensor.tensor_core", "TensorNetwork.insert_compressor_between_regions", "mode"),
+            ]),
+            P(inplace.rule_inplace_effect, family=_c12_family, rule="inplace-effect[boundary]", floor=25, controls=0),
+        ],
+        "explanation": (
+            "static: decides that the bond cap / cutoff (and the compress_opts that carry them) are delivered along every "
+            "call edge of the 2D/3D boundary, CTMRG/HOTRG, arbitrary-geometry and compressed-contraction code whose callee "
+            "accepts them; that registered arbitrary-geometry methods read their options; that mode dispatchers reject "
+            "unknown modes; and that all these schemes obey the non-mutation discipline. Does NOT decide exactness at large "
+            "cap, the run-time bond-cap invariant, or environment consistency."
+        ),
+        "assumptions": COMMON_ASSUMPTIONS,
+    },
+    "C04": {
+        "rules": [iso.rule_iso_invalidate, iso.rule_iso_claim, iso.rule_exp_compensate, iso.rule_strip_member,
+                  functools.partial(inplace.rule_inplace_effect, family=iso.rewrite_family, rule="inplace-effect[rewrites]", floor=40, controls=0)],
+        "explanation": (
+            "static: decides (a) the isometry flag left_inds as a typestate — dropped by every data write, low-level "
+            "setters reserved to meaning-preserving callers, own flag re-asserted only with isometry-preserving data, "
+            "no caller-supplied array flagged; (b) scale compensation — log10(F) accrued into exponent only where F "
+            "divides tensor data, distribute_exponent and the gauging scale are paired, strip_exponent only on "
+            "tensors the network really holds; (c) the rewrite families (gauge/canonize/simplify/compress/...) obey "
+            "the non-mutation discipline. Does NOT decide that a rewrite preserves the dense tensor numerically nor "
+            "that promised forms are achieved."
+        ),
+        "assumptions": COMMON_ASSUMPTIONS,
+    },
     "C08": {
         "rules": [record.rule_record, record.rule_absorb_keyed, record.rule_clients],
         "explanation": (
@@ -70,7 +149,8 @@ REGISTRY = {
         "assumptions": COMMON_ASSUMPTIONS,
     },
     "C01": {
-        "rules": [exponent.rule_exp_drop, exponent.rule_exp_flow, exponent.rule_exp_combine, exponent.rule_linop],
+        "rules": [exponent.rule_exp_drop, exponent.rule_exp_flow, exponent.rule_exp_combine, exponent.rule_linop,
+                  exponent.rule_carrier_derivation, exponent.rule_hyper_count],
         "explanation": (
             "static (AST def-use flag closure): decides exponent accounting — every evaluator that turns tensors "
             "extracted from a network into a non-network value reads that network's stored exponent or delegates "
@@ -108,6 +188,9 @@ REGISTRY = {
 
 
 TECHNIQUE = {
+    "C09": "static analysis: registry/dispatcher interface and use-or-reject rules, option-delivery (OPTFLOW) over the 1D call edges, effect analysis of compressors and MPS/MPO arithmetic",
+    "C12": "static analysis: option-delivery (OPTFLOW) over boundary / compressed-contraction call edges, registry use-or-reject, mode totality, effect analysis",
+    "C04": "static analysis: typestate rules for the isometry flag (invalidate / claim provenance), exponent-compensation pairing rules, membership rule for strip_exponent, effect analysis of the rewrite families",
     "C08": "static analysis: typestate rules on the info['cur_orthog'] record (threading, object-following with copy/alias classification, re-assertion after structural events, option-keyed stores)",
     "C11": "static analysis: id()-keyed cache coherence rule, constant folding of Trotter coefficients, structural time/queue bookkeeping rules",
     "C18": "static analysis: dispatch-table extraction (method x state kind) with helper following; statement-order rules on the update routines",
